@@ -33,7 +33,9 @@ const retAddressArrayConst = 3
 
 func updateChar(pj *internalParsedJson, idx_in uint64) (done bool, idx uint64) {
 	if pj.indexesChan.index >= pj.indexesChan.length {
+		verifPipe(pj, verifEvRecvGate, 0, pj.indexesChan)
 		pj.indexesChan = <-pj.indexChans // Get next element from channel
+		verifPipe(pj, verifEvReceived, 0, pj.indexesChan)
 		done = pj.indexesChan.index == -1
 		if done {
 			return
